@@ -427,6 +427,19 @@ inductive Prealloc
   | unknown
 deriving DecidableEq, Repr
 
+/-- how `btree.Int.Less` compares two 64-bit keys -/
+inductive IntLess
+  | direct     -- `a < b.(Int)`
+  | subtract   -- `a-b.(Int) < 0` (wraps around)
+  | unknown
+deriving DecidableEq, Repr
+
+/-- `btree.Int.Less` on machine integers, for each recognised shape -/
+def intLessK : IntLess → BitVec 64 → BitVec 64 → Bool
+  | .direct, a, b => a.slt b
+  | .subtract, a, b => (a - b).slt 0#64
+  | .unknown, _, _ => false
+
 structure Cfg where
   ascGe : ScanArgs      -- `AscendGreaterOrEqual`
   ascGt : ScanArgs      -- `AscendGreater`   (btree_ext.go)
@@ -435,13 +448,14 @@ structure Cfg where
   limitCmp : LimitCmp   -- `if c >= n { return false }` in `iterWalk`
   wrapperDegree : Nat   -- `btree.New(2)` in `NewBTree`
   prealloc : Prealloc   -- the `make` in `iterWalk`
+  intLess : IntLess     -- `btree.Int.Less` (the package's own item type)
 deriving DecidableEq, Repr
 
 /-- the configurations for which the property theorems are proved -/
 def Proved (c : Cfg) : Prop :=
   c.ascGe = ⟨.asc, .pivot, .nil, true, false⟩ ∧ c.ascGt = ⟨.asc, .pivot, .nil, false, false⟩ ∧
   c.descLe = ⟨.desc, .pivot, .nil, true, false⟩ ∧ c.descLt = ⟨.desc, .pivot, .nil, false, false⟩ ∧
-  (c.limitCmp = .ge ∨ c.limitCmp = .eq) ∧ 2 ≤ c.wrapperDegree ∧ c.prealloc = .capped
+  (c.limitCmp = .ge ∨ c.limitCmp = .eq) ∧ 2 ≤ c.wrapperDegree ∧ c.prealloc = .capped ∧ c.intLess = .direct
 instance : DecidablePred Proved := fun c => by unfold Proved; exact inferInstance
 
 /-- the scans whose tuple is not a parameter (vendored entry points; compared with `Facts.expected`) -/
@@ -479,11 +493,13 @@ structure Facts where
   bodyLookup : Bool        -- `(*node).get`, `min`, `max`, `Get`, `Min`, `Max`, `Has`, `Len`, `maxItems`, `minItems`
   bodyCow : Bool           -- `Clone`, `mutableFor`, `mutableChild`, `copyOnWriteContext.newNode/freeNode`, `FreeList.newNode/freeNode`, `NewFreeList`, `New`, `NewWithFreeList`, `Clear`, `reset`
   bodyWrapper : Bool       -- every method of `tree.BTree` and `NewBTree` (`iterWalk`: one of the two recognised shapes)
+  bodyClosed : Bool        -- `node.print` is as it was, and NO function of the three anchored files is outside the groups above
+  wrapperAllLocked : Bool  -- EVERY method of `tree.BTree` takes `b.rw` first (with a deferred unlock) or is a one-line call of `iterWalk`
 deriving DecidableEq, Repr
 
 def Facts.expected : Facts :=
   ⟨true, true, true, true, true, true, true, true, true, true, true, true, true, true, true, true,
-   true, true, true, true, true, true, true, true⟩
+   true, true, true, true, true, true, true, true, true, true⟩
 
 /-! ### direct scans of `btree.BTree` -/
 
